@@ -92,6 +92,8 @@ func execTreap(kind string, ops []string) string {
 		return mut
 	}
 	var it *veriftreap.Iterator
+	// results are values: slices handed out earlier must not change later
+	var held, heldCopy [][]byte
 	outs := make([]string, 0, len(ops))
 	for _, op := range ops {
 		f := strings.Split(op, ":")
@@ -99,9 +101,9 @@ func execTreap(kind string, ops []string) string {
 		switch f[0] {
 		case "p":
 			if kind == "imm" {
-				imm = append(imm, imm[len(imm)-1].Put(veriftreap.KVPair{Key: unhx(f[1]), Value: unhx(f[2])}))
+				imm = append(imm, imm[len(imm)-1].Put(veriftreap.KVPair{Key: unhx(f[1]), Value: optKey(f[2])}))
 			} else {
-				mut.Put(unhx(f[1]), unhx(f[2]))
+				mut.Put(unhx(f[1]), optKey(f[2]))
 			}
 			nver++
 			out = "ok"
@@ -138,7 +140,27 @@ func execTreap(kind string, ops []string) string {
 				it.ForceReseek()
 			}
 		case "g":
-			out = valStr(ver(f[1]).Get(unhx(f[2])))
+			v := ver(f[1]).Get(unhx(f[2]))
+			if v != nil {
+				held = append(held, v)
+				heldCopy = append(heldCopy, append([]byte{}, v...))
+			}
+			out = valStr(v)
+		case "E":
+			n := atoi(f[2])
+			var parts []string
+			ver(f[1]).ForEach(func(k, v []byte) bool {
+				parts = append(parts, hx(k)+"="+hx(v))
+				return len(parts) != n
+			})
+			out = "[" + strings.Join(parts, ",") + "]"
+		case "z":
+			mut.Reset()
+			nver++
+			out = "ok"
+			if it != nil {
+				it.ForceReseek()
+			}
 		case "h":
 			out = "0"
 			if ver(f[1]).Has(unhx(f[2])) {
@@ -177,6 +199,11 @@ func execTreap(kind string, ops []string) string {
 			return "bad-op"
 		}
 		outs = append(outs, out)
+	}
+	for i := range held {
+		if string(held[i]) != string(heldCopy[i]) {
+			return strings.Join(outs, "|") + "|ALIAS"
+		}
 	}
 	return strings.Join(outs, "|")
 }
@@ -228,7 +255,11 @@ func genTreapLine(r *core.Rand, kind string, nops int) (string, bool) {
 	for len(ops) < nops {
 		switch c := r.Intn(20); {
 		case c < 6:
-			ops = append(ops, fmt.Sprintf("p:%s:%s:%d", hx(pick()), hx(r.Bytes(r.Intn(4))), prio()))
+			val := hx(r.Bytes(r.Intn(4)))
+			if r.Chance(1, 10) {
+				val = "~" // nil value: stored as the empty value
+			}
+			ops = append(ops, fmt.Sprintf("p:%s:%s:%d", hx(pick()), val, prio()))
 			nver++
 			live++
 			muts++
@@ -252,7 +283,16 @@ func genTreapLine(r *core.Rand, kind string, nops int) (string, bool) {
 		case c < 13:
 			ops = append(ops, fmt.Sprintf("h:%d:%s", rv(), hx(pick())))
 		case c < 14:
-			ops = append(ops, fmt.Sprintf("%s:%d", []string{"l", "s", "e"}[r.Intn(3)], rv()))
+			switch k := r.Intn(8); {
+			case k < 6:
+				ops = append(ops, fmt.Sprintf("%s:%d", []string{"l", "s", "e"}[k%3], rv()))
+			case k < 7 || kind == "imm":
+				ops = append(ops, fmt.Sprintf("E:%d:%d", rv(), 1+r.Intn(4)))
+			default:
+				ops = append(ops, "z")
+				nver++
+				muts++
+			}
 		case c < 15 || !haveIter:
 			s, l := "~", "~"
 			if r.Chance(1, 2) {
